@@ -68,7 +68,11 @@ static EVENTS: Mutex<Vec<(u64, u8, &'static str, u32)>> = Mutex::new(Vec::new())
 
 thread_local! {
     static THREAD_TAG: std::cell::Cell<u8> = const { std::cell::Cell::new(255) };
+    /// (round of the job this analysing thread works on if new file names appeared in it, else 0; lookups so far)
+    static THREAD_JOB: std::cell::Cell<(u32, u32)> = const { std::cell::Cell::new((0, 0)) };
 }
+/// key of the analysing thread that waits at the lookup hook for its partner (0 = nobody)
+static WAITING_AT_LOOKUP: AtomicU64 = AtomicU64::new(0);
 
 fn log(kind: &'static str, round: u32) -> u64 {
     let t = CLOCK.fetch_add(1, Ordering::SeqCst);
@@ -87,20 +91,31 @@ fn pause(point: &'static str) {
     let h = hash64(format!("{}/{}/{}", PAUSE_SEED.load(Ordering::Relaxed), n, point).as_bytes());
     log(point, 0);
     let window = point.starts_with("set_overlay");
-    // rendezvous: a quarter of the analysing threads that are about to look a path up wait a moment for another one to
-    // arrive at the same point, and then both go on together. Random pauses pull threads apart; a check-then-act window
-    // between two *readers* is only met when they arrive together.
-    if point == "source_input:before-entry" && h % 4 == 1 && THREAD_TAG.with(|c| c.get()) >= 10 {
-        static ARRIVED: AtomicU64 = AtomicU64::new(0);
-        let mine = ARRIVED.fetch_add(1, Ordering::SeqCst);
-        if mine % 2 == 0 {
-            // the first of a pair waits for the second (or gives up); the second goes on at once
-            let started = Instant::now();
-            while ARRIVED.load(Ordering::SeqCst) == mine + 1 && started.elapsed() < Duration::from_micros(400) {
-                std::hint::spin_loop();
+    // rendezvous: in a round in which new file names appeared, the analyses of the two roots look the same new paths up
+    // in the same order (root, its companion, the provider, the provider's companion). The k-th lookup of one analysing
+    // thread waits a moment for the k-th lookup of another one, and both go on together: random pauses pull threads
+    // apart, and a check-then-act window between two *readers* of the shared file table is a few hundred nanoseconds.
+    if point == "source_input:before-entry" {
+        let (round, calls) = THREAD_JOB.with(|c| {
+            let (r, n) = c.get();
+            c.set((r, n + 1));
+            (r, n)
+        });
+        if round != 0 && (2..8).contains(&calls) {
+            let key = ((round as u64) << 8) | calls as u64;
+            if WAITING_AT_LOOKUP.compare_exchange(key, 0, Ordering::SeqCst, Ordering::SeqCst).is_ok() {
+                // the partner is waiting: it has just been released
+                return;
+            }
+            if WAITING_AT_LOOKUP.compare_exchange(0, key, Ordering::SeqCst, Ordering::SeqCst).is_ok() {
+                let started = Instant::now();
+                while WAITING_AT_LOOKUP.load(Ordering::SeqCst) == key && started.elapsed() < Duration::from_micros(800) {
+                    std::hint::spin_loop();
+                }
+                let _ = WAITING_AT_LOOKUP.compare_exchange(key, 0, Ordering::SeqCst, Ordering::SeqCst);
+                return;
             }
         }
-        return;
     }
     match h % 16 {
         | 0..=3 => std::thread::yield_now(),
@@ -200,6 +215,7 @@ fn reader(tag: u8, dir: PathBuf, jobs: Arc<Mutex<Receiver<Job>>>, done: Sender<D
             }
         };
         let Job { snapshot, round, query, other_root } = job;
+        THREAD_JOB.with(|c| c.set((if round % 6 == 0 { round } else { 0 }, 0)));
         let (root, other) = if other_root { (dir.join("other.zy"), dir.join("root.zy")) } else { (dir.join("root.zy"), dir.join("other.zy")) };
         let started = log("analysis-start", round);
         let result = catch(|| salsa::Cancelled::catch(AssertUnwindSafe(|| raw_answer(&snapshot, &root, &other, query))));
